@@ -10,16 +10,15 @@ theorem toBits_lt (x : Int) : toBits .i64 x < 2 ^ 64 := by
 
 theorem toBits_testBit (x : Int) (h : InRange .i64 x) : (toBits .i64 x).testBit 63 = decide (x < 0) := by
   rw [inRange64] at h
-  have : toBits .i64 x = (x % 18446744073709551616).toNat := rfl
+  have : toBits .i64 x = (x % 2 ^ 64).toNat := by simp only [toBits, Ty.bits]
   rw [this, Nat.testBit_eq_decide_div_mod_eq]
   by_cases hx : x < 0
   · rw [decide_eq_true hx, decide_eq_true_iff]; omega
   · rw [decide_eq_false hx, decide_eq_false_iff_not]; omega
 
 theorem ofBits_neg_iff (m : Nat) (h : m < 2 ^ 64) : ofBits .i64 m < 0 ↔ m.testBit 63 = true := by
-  have : ofBits .i64 m = ((m:Int) + 9223372036854775808) % 18446744073709551616 - 9223372036854775808 := rfl
+  have : ofBits .i64 m = ((m:Int) + 2 ^ 63) % 2 ^ 64 - 2 ^ 63 := by simp [ofBits, wrap, Ty.signed, Ty.bits]
   rw [this, Nat.testBit_eq_decide_div_mod_eq, decide_eq_true_iff]
-  have h' : m < 18446744073709551616 := h
   omega
 
 theorem ofBits_inRange (m : Nat) : InRange .i64 (ofBits .i64 m) := Proofs.IRArith.wrap_inRange _ _
